@@ -1,3 +1,5 @@
+-- model files only; proof modules are built one by one (two helper files define lemmas of the
+-- same name and cannot share an importer)
 import VfsModel.Adapters
 import VfsModel.AsyncWalk
 import VfsModel.Basic
@@ -8,36 +10,3 @@ import VfsModel.Handle
 import VfsModel.Leaf
 import VfsModel.Path
 import VfsModel.PathOps
-import VfsModel.Proofs.AltrootLemmas
-import VfsModel.Proofs.FMapLemmas
-import VfsModel.Proofs.Faithful
-import VfsModel.Proofs.Hoare
-import VfsModel.Proofs.LeafFrame
-import VfsModel.Proofs.MemInv
-import VfsModel.Proofs.MemPath
-import VfsModel.Proofs.MemRun
-import VfsModel.Proofs.NoPanic
-import VfsModel.Proofs.OverlayLemmas
-import VfsModel.Proofs.PathLemmas
-import VfsModel.Proofs.PhysLemmas
-import VfsModel.Proofs.PhysPath
-import VfsModel.Proofs.PreservesOps
-import VfsModel.Proofs.TransferLemmas
-import VfsModel.Props.C01
-import VfsModel.Props.C02
-import VfsModel.Props.C03
-import VfsModel.Props.C04
-import VfsModel.Props.C05
-import VfsModel.Props.C06
-import VfsModel.Props.C07
-import VfsModel.Props.C08
-import VfsModel.Props.C09
-import VfsModel.Props.C10
-import VfsModel.Props.C11
-import VfsModel.Props.C12
-import VfsModel.Props.C13
-import VfsModel.Props.C14
-import VfsModel.Props.C15
-import VfsModel.Props.C18
-import VfsModel.Props.C19
-import VfsModel.Props.C20
